@@ -34,11 +34,14 @@
 (*  - tests/cxx/t-ostream.cc {"1", "+0x   1", hex|showbase|showpos|         *)
 (*    internal, 7}: with a sign AND a 0x prefix (possible only because hex  *)
 (*    is signed here) internal padding follows both.                        *)
-(*  - nothing states where internal padding goes for a SIGNED octal number  *)
-(*    with showbase ("-0173": after the sign as the standard's rule reads,  *)
-(*    or after the octal 0 as the code does): both are admitted.            *)
-(*  For a non-negative octal number the standard is explicit: the octal 0   *)
-(*  of showbase is not a padding point ("****0173").                        *)
+(*  - octal with showbase and internal adjustment: the standard's stage 3   *)
+(*    names only a sign and a 0x/0X prefix as padding points, so the        *)
+(*    standard library pads "****0173"; printf/doprnti.c emits sign, base   *)
+(*    indicator, THEN the internal padding: "0****173".  printf itself has  *)
+(*    no counterpart for this row (its internal padding is always '0',      *)
+(*    where both give the same text) and neither the manual nor the tree's  *)
+(*    tests state it: BOTH paddings are admitted (an observation, not a     *)
+(*    finding: NOTES-CxxStream.md).                                         *)
 (***************************************************************************)
 EXTENDS Naturals, Integers, Sequences, TLC, BigZ, PrintfLayout
 
@@ -65,10 +68,11 @@ StdMeaning(st, v) == /\ ZLe("-8000000000000000", v) /\ ZLe(v, "7fffffffffffffff"
 ZeroHexShowbase(st, v) == st.base = "hex" /\ st.showbase /\ v = "0"                            \* MPIR: "0x0" (stated by its sources), standard: "0"
 
 MpirBody(st, v) == IF ZeroHexShowbase(st, v) THEN (IF st.showpos THEN "+" ELSE "") \o (IF st.upper THEN "0X0" ELSE "0x0") ELSE OBody(st, v)
-SignedOctPrefix(st, b, v) == st.base = "oct" /\ st.showbase /\ SignLen(b) = 1 /\ v # "0"
+OctPrefix(st, v) == st.base = "oct" /\ st.showbase /\ v # "0"                                   \* the representation carries the octal 0 of showbase
+OctInternalRow(st, width, v) == OctPrefix(st, v) /\ st.adj = "internal" /\ width > Len(OBody(st, v)) \* the rows where the two admitted paddings differ
 MpzOstreamTexts(st, width, fill, v) ==
    LET b == MpirBody(st, v)  k == IntPoint(b) IN
-   {OPad(st, width, fill, b, k)} \cup (IF SignedOctPrefix(st, b, v) THEN {OPad(st, width, fill, b, k + 1)} ELSE {})
+   {OPad(st, width, fill, b, k)} \cup (IF OctPrefix(st, v) THEN {OPad(st, width, fill, b, k + 1)} ELSE {})
 
 (* mpq: "Output will be a fraction like 5/9, or if the denominator is 1 then just a plain integer like 123.  In hex or octal, op is printed as a
    signed value, the same as for decimal.  If ios::showbase is set then a base indicator is shown on both the numerator and denominator (if the
